@@ -151,6 +151,8 @@ def check_query(q, funcs, enums, tier, logdir):
                 # rustc emits `unreachable` only where the type's validity invariant excludes the
                 # branch (e.g. discriminant of an Option outside {0,1}); such paths are infeasible
                 continue
+            elif p.outcome == "untranslatable":
+                items.append((i, p, None))
             elif p.outcome == "panic":
                 allowed = q.get("allowed_panics")
                 if allowed and re.search(allowed, p.detail or ""):
@@ -208,6 +210,10 @@ def check_query(q, funcs, enums, tier, logdir):
             res.update(verdict="holds")
             return res
         # second pass: model of the first violated obligation
+        if any(pp.outcome == "untranslatable" for (_, pp, _) in bad):
+            pp = next(pp for (_, pp, _) in bad if pp.outcome == "untranslatable")
+            res.update(verdict="not-translatable", why="a feasible path contains a construct outside the translator: " + str(pp.detail))
+            return res
         i, p, post = bad[0]
         s2 = list(head[:4]) + ["(assert %s)" % and_(p.state.conds)] + (["(assert (not %s))" % post] if post is not None else []) + ["(check-sat)"]
         if inputs:
